@@ -14,14 +14,15 @@ class EngineStream(Stream):
     """plain FormulaEngine over 1..5 Broadcast inputs"""
     name = "engine"
     coq_header = ES.HEADER
-    n_quick = 700
+    n_quick = 620
     n_thorough = 14000
 
     def gen(self, rng, tier):
         n = self.n_quick if tier == "quick" else self.n_thorough
         for i in range(n):
             r = rng.random()
-            kind = "grid_realset" if r < 0.35 else "grid_order" if r < 0.62 else "offgrid" if r < 0.96 else "long"
+            kind = ("grid_realset" if r < 0.30 else "grid_order" if r < 0.52 else "offgrid" if r < 0.78
+                    else "startup_gap" if r < 0.96 else "long")
             yield ES.gen_engine_case(rng, kind)
 
     def run_impl(self, case):
@@ -47,7 +48,8 @@ class EngineStream(Stream):
                f"backlog={'<=10' if obs['max_backlog'] <= 10 else '<=30' if obs['max_backlog'] <= 30 else '<=49'}"]
         firsts = {s[0] for s in case["streams"] if s}
         out.append("first_ts_equal" if len(firsts) <= 1 else "first_ts_differ")
-        out.append("grid(theorem hypothesis)" if ES.is_grid(case) else "off_grid(outside the property)")
+        out.append("grid(theorem hypothesis)" if ES.is_grid(case) else
+                   "gap_in_lagging_input_at_startup" if case.get("kind") == "startup_gap" else "off_grid(outside the property)")
         for k in case.get("perturb", []):
             out.append(f"perturb={k}")
         ci = next((i for i, a in enumerate(case["sched"]) if a[0] == "c"), len(case["sched"]))
@@ -56,6 +58,12 @@ class EngineStream(Stream):
         return out
 
     def oracle(self, case, obs):
+        if case.get("kind") == "startup_gap":
+            # one lagging input has a gap around the latest first timestamp: the first synchronisation may
+            # fail; every sample emitted afterwards (all inputs are on the grid again) must be single-timestamp
+            outs = [(o[0], o[1]) for o in obs["out"]]
+            probs = ES.judge_sum_outputs(case, case["eng"][0], outs, exact_timeline=False)
+            return [{"what": p, "finding": None} for p in probs]
         if not ES.is_grid(case):
             return []          # the property is about resampled (grid) inputs
         outs = [(o[0], o[1]) for o in obs["out"]]
@@ -80,7 +88,7 @@ class ThreePhaseStream(Stream):
     """FormulaEngine3Phase over three per-phase FormulaEngines"""
     name = "three"
     coq_header = ES.HEADER
-    n_quick = 300
+    n_quick = 240
     n_thorough = 6000
 
     def gen(self, rng, tier):
@@ -152,8 +160,71 @@ class ThreePhaseStream(Stream):
         return [{"what": p, "finding": fid} for p in probs]
 
 
+class ComposedStream(Stream):
+    """engines composed with the operator API (2 levels) from from_receiver engines; several
+    simultaneous consumers of the same input engines (other composed engines and direct readers)"""
+    name = "composed"
+    coq_header = ES.HEADER_COMPOSED
+    n_quick = 260
+    n_thorough = 5000
+
+    def gen(self, rng, tier):
+        for _ in range(self.n_quick if tier == "quick" else self.n_thorough):
+            yield ES.gen_composed_case(rng)
+
+    def run_impl(self, case):
+        return ES.run_composed(case)
+
+    def to_coq(self, case, obs):
+        return ES.composed_term(case, obs)
+
+    def show_term(self, case, obs):
+        tops = list(case["forms"]) + list(case["direct"])
+        return "[" + "; ".join(ES.c_tree(case, t) for t in tops) + "]"
+
+    def shrink(self, case):
+        return ES.shrink_composed(case)
+
+    def key(self, case, obs):
+        if not any(obs["outs"]):
+            return None
+        return json.dumps([case["streams"], case["forms"], case["direct"], case["sched"]])
+
+    def labels(self, case, obs):
+        nc = len(case["forms"]) + len(case["direct"])
+        depth = max((2 if any(not isinstance(c, int) for c in t[1:]) else 1) for t in case["forms"])
+        users = {}
+        for t in case["forms"]:
+            for g in set(ES.tree_leaves(t)):
+                users[g] = users.get(g, 0) + 1
+        for g in case["direct"]:
+            users[g] = users.get(g, 0) + 1
+        lead = 0
+        sent = [0] * len(case["streams"])
+        for a in case["sched"]:
+            if a[0] == "s":
+                sent[a[1]] += 1
+                lead = max(lead, max(sent) - min(sent))
+        return [f"consumers={nc}", f"levels={depth}", f"max_users_of_one_input={max(users.values())}",
+                "direct_reader" if case["direct"] else "no_direct_reader",
+                f"max_lead_between_inputs={'<3' if lead < 3 else '3-9' if lead < 10 else '10+'}",
+                f"outputs={'0' if not any(obs['outs']) else 'some'}"]
+
+    def oracle(self, case, obs):
+        probs = []
+        tops = list(case["forms"]) + list(case["direct"])
+        for i, (t, out) in enumerate(zip(tops, obs["outs"])):
+            ids = sorted(set(ES.tree_leaves(t)))
+            for p in ES.judge_sum_outputs(case, ids, [(o[0], o[1]) for o in out]):
+                probs.append(f"consumer {i} ({'direct reader of input ' + str(t) if isinstance(t, int) else 'formula ' + json.dumps(t)}): {p}")
+                break
+        if obs["max_backlog"] >= 50:
+            probs.append("backlog: an input receiver filled up (50) although the schedule keeps every backlog <= 40")
+        return [{"what": p, "finding": None} for p in probs]
+
+
 def streams():
-    return [EngineStream(), ThreePhaseStream()]
+    return [EngineStream(), ThreePhaseStream(), ComposedStream()]
 
 
 ASSUMPTIONS = [
